@@ -19,20 +19,20 @@ MODEL_NOTE = ("Trusted: rustc/std; the reference model pgmc/src/model.rs (a re-s
 add("C01", "E1 mapspace", "model_checking", "bounded-exhaustive explicit-state exploration of mapping histories on the real code vs a reference model",
     "Every mapping history of the listed scopes (all line sequences up to the depth bound over alphabets of ranges/originals/classes/headers/noise) is "
     "built on the real mapper (with and without index) and the real cache writer+reader, and the complete line-based query universe of the history is "
-    "compared answer-for-answer with the reference model. Exhaustive within the stated bounds; nothing is sampled." + FAMILIES, MODEL_NOTE, "DESIGN.md §4 C01, §11.5")
+    "compared answer-for-answer with the reference model; for every distinct non-empty answer the frame iterator is also consumed through nth/skip/step_by/last/count/size_hint and must show the sequence of repeated next(); mappers are built through new*() and through the From conversions. Exhaustive within the stated bounds; nothing is sampled." + FAMILIES, MODEL_NOTE, "DESIGN.md §4 C01, §11.5")
 add("C03", "E1 mapspace", "model_checking", "bounded-exhaustive explicit-state exploration of mapping histories on the real code vs a reference model",
     "All histories up to depth 5 (13-line alphabet) / 4 (24-line alphabet) incl. repeated entries across re-declared classes, plus name tables up to 300 classes; "
-    "all (class, method, parameter-string) triples of each history's universe against mapper-with-index and cache vs model rule R10, mapper-without-index must be empty." + FAMILIES,
+    "all (class, method, parameter-string) triples of each history's universe against mapper-with-index and cache vs model rule R10, mapper-without-index must be empty; iterator protocol (nth/skip/step_by/last/count/size_hint) on every distinct non-empty answer." + FAMILIES,
     MODEL_NOTE, "DESIGN.md §4 C03")
 add("C04", "E1 mapspace", "model_checking", "bounded-exhaustive explicit-state exploration of name tables on the real code vs a reference model",
     "All ordered selections of <=3 names (and subsets of 4-5) from a pool of 14 adversarially similar names as class tables and method tables, large-N tables up to 300 classes, "
-    "all block-bookkeeping histories up to depth 4; every name, near miss, empty and unknown string looked up; consistency clause checked on every line of the universe." + FAMILIES,
+    "all block-bookkeeping histories up to depth 4; every name, near miss, empty and unknown string looked up; consistency clause checked on every line of the universe. Handle-history pass: for every ordered pair of 7 small mappings x 28 last queries x 28 first queries a cache (and a mapper) is created, queried, dropped and a second one created at the same address; its first and repeated (cloned handle) answers must come from the new contents." + FAMILIES,
     MODEL_NOTE, "DESIGN.md §4 C04")
 
 add("C02", "E1 mapspace", "model_checking", "bounded-exhaustive exploration of mapping histories and token strings on the real code, differential oracle (mapper vs cache)",
     "Every mapping of every E1 scope, every string of <=5 (thorough 6) tokens over a 16-token alphabet that lies in the representable domain, and every class block of the 7 corpus files: "
     "the complete query universe (class, method, frames by line and by parameters, throwable, text and typed traces, signatures) is answered by the mapper, the mapper with index and the cache written and parsed back; "
-    "any difference is a violation. Exhaustive within the stated bounds." + FAMILIES,
+    "any difference is a violation; the frame iterators of mapper and cache must also satisfy the iterator protocol (nth/skip/step_by/last/count/size_hint = repeated next()). Exhaustive within the stated bounds." + FAMILIES,
     "Trusted: rustc/std. No model involved. The domain filter for token strings and corpus files uses the implementation's own record iterator (itself checked by C05/C06).", "DESIGN.md §4 C02")
 
 add("C09", "E1 mapspace", "model_checking", "bounded-exhaustive exploration of mapping histories; every written file decoded by an independent decoder and compared with model-derived counts, orders and contents",
@@ -60,20 +60,20 @@ add("C05", "E2 textspace", "model_checking", "bounded-exhaustive enumeration of 
     TEXT_NOTE + " The recogniser's NAME is deliberately narrow; outside it no claim is made.", "DESIGN.md §4 C05")
 add("C06", "E2 textspace", "model_checking", "bounded-exhaustive enumeration of byte strings, token strings and (A,B) pairs on the real record iterator; invariant + compositionality oracle",
     "All byte strings of length <=7 over 9 symbols, all strings of <=5 (thorough 6) tokens over 16 hostile tokens, every LF split of each, all pairs (A<=4 tokens, B<=2 tokens), and line-boundary splits of the corpus: "
-    "iteration ends within len+1 items without panic, no yielded string contains CR/LF, records(A+LF+B) = records(A)++records(B).",
+    "iteration ends within len+1 items without panic, no yielded string contains CR/LF, records(A+LF+B) = records(A)++records(B); iterator-protocol family (every file of <=4 lines over 8 line kinds x 4 terminators: positional access = repeated next(), clones, section(0..len)); has_line_info()/summary() equal the fold over the records behind 99..100000 malformed lines.",
     TEXT_NOTE + " Reading I3: zero-length error items are ignored. Corpus files > 100 kB are split at a stride of line boundaries (stated in the evidence).", "DESIGN.md §4 C06")
 add("C19", "E2 textspace", "model_checking", "bounded-exhaustive enumeration of files over a 14-line alphabet plus positional families, real metadata API vs an independent fold over the record stream",
     "Every file of <=6 (thorough 7) lines over 14 line kinds (with and without final newline) and positional families around the 50-item window and late line-mapped methods: has_line_info, is_valid and the five summary fields must equal an independent fold over iter().",
     TEXT_NOTE + " The record stream itself is the subject of C05/C06.", "DESIGN.md §4 C19")
 
 add("C07", "E3 tracespace", "model_checking", "bounded-exhaustive enumeration of trace texts on the real mapper and cache vs a text model with an independent line classifier",
-    "Every text of <=4 (thorough 5) lines over 21 line shapes x 3 terminator policies x 3 mappings x {mapper, cache} is remapped by the real code and compared with the text model R12 (throwable first / cause prefix / frames / verbatim); with a mapping that knows none of the names the output must be the normalised input.",
+    "Every text of <=4 (thorough 5) lines over 35 line shapes x 3 terminator policies x 3 mappings x {mapper (for every second mapping the one built with the parameter index), cache} is remapped by the real code and compared with the text model R12 (throwable first / cause prefix / frames / verbatim); with a mapping that knows none of the names the output must be the normalised input.",
     TEXT_NOTE + " Trusted: the text model and line classifier in pgmc/src/props/e3.rs; str::lines splitting semantics.", "DESIGN.md §4 C07")
 add("C08", "E3 tracespace", "model_checking", "bounded-exhaustive enumeration of typed traces (levels x cause chains) on the real mapper and cache vs model R13 and vs the text API",
-    "Every typed trace over 105 top levels and cause chains up to depth 3 (thorough 4) x 2 mappings x {mapper, cache}: same depth, every throwable remapped-or-identical, every frame expanded-or-identical, nothing dropped; and the printed typed result must equal the text API's output on the printed input.",
+    "Every typed trace over 126 top levels and cause chains up to depth 3 (thorough 4) x 2 mappings x {mapper, cache}: same depth, every throwable remapped-or-identical, every frame expanded-or-identical, nothing dropped; and the printed typed result must equal the text API's output on the printed input.",
     TEXT_NOTE + " Canonical printed form as stated in the evidence assumptions.", "DESIGN.md §4 C08")
 add("C16", "E3 tracespace", "model_checking", "bounded-exhaustive enumeration of descriptors, all their single-character edits and all short strings, real mapper and cache vs an independent JVM descriptor parser",
-    "All 1813 (thorough 42k) descriptors over a 6- (8-)type alphabet, each single-character deletion/substitution/insertion over a 10-character alphabet, and all strings of <=6 (7) characters, x 3 mappings x {mapper, cache}: valid descriptors must give exactly the R14 parameter list, return type and formatted signature; strings without parenthesised list / return type / with an unterminated object type must give none; mapper == cache on every string.",
+    "All 1813 (thorough 42k) descriptors over a 6- (8-)type alphabet, each single-character deletion/substitution/insertion over a 10-character alphabet, and all strings of <=6 (7) characters, x 3 mappings x {mapper, cache}: valid descriptors must give exactly the R14 parameter list, return type and formatted signature; strings without parenthesised list / return type / with an unterminated object type must give none; mapper == cache on every string. Every answer is read through the accessors, format_signature() and Display; parameters_types() must satisfy the iterator protocol; handle-history pass (second handle in recycled memory).",
     TEXT_NOTE + " Trusted: descriptor parser + R14 in pgmc/src/props/c16.rs.", "DESIGN.md §4 C16")
 add("C17", "E3 tracespace", "model_checking", "bounded-exhaustive enumeration of traces, frames and throwables; real printer and parser; round-trip oracle",
     "28 throwables x 72 frames x top-level present/absent x 0..2 frames x cause chains up to depth 3 (4): parse(print(t)) == t and print(parse(print(t))) == print(t); single frames (3 indentations) and throwables likewise; frames without file: text fix-point.",
@@ -81,10 +81,10 @@ add("C17", "E3 tracespace", "model_checking", "bounded-exhaustive enumeration of
 
 add("C13", "E2 textspace", "model_checking", "bounded-exhaustive enumeration of hostile mappings (token strings + structured hostile numerals) and query strings through the whole real pipeline; totality oracle",
     "Every string of <=5 (6) tokens over 19 hostile tokens, every class+entry mapping with all four numbers from 7 hostile numerals (and pairs over a sub-alphabet) goes through mapper (both flags), cache write, parse and all queries incl. lines 0, 2^32, 2^64-1; "
-    "every string of <=6 (7) symbols over descriptor characters / trace tokens is used as signature / trace text. No panic (overflow checks compiled in), no Err. A scale family (cause depth / frame count up to 200000, in a subprocess) is reported separately.",
+    "every string of <=6 (7) symbols over descriptor characters / trace tokens is used as signature / trace text. No panic (overflow checks compiled in), no Err. Parameter strings incl. unbalanced parentheses / multi-byte ends; the handle-history pass (second handle in recycled memory). A scale family (cause depth / frame count up to 200000, in a subprocess) is reported separately.",
     TEXT_NOTE + " Overflow checks and debug assertions compiled into the subject. Known finding K1 (typed-trace recursion at depth 200000) is listed in known_findings.txt.", "DESIGN.md §4 C13")
 add("C14", "E7 multiproc", "exploration", "exhaustive enumeration of inputs x a finite harness-owned set of hash seeds (separately started processes under a getrandom shim), byte-for-byte comparison",
-    "Every mapping of the scopes (all histories up to depth 4 (5), file-rule and name-table families, a wide family with >=6 keys per hash container, corpus) is serialised in 8 (24) separately started processes with owned hash seeds + 2 with OS seeds; in each process twice in a row and, for every 64th input, from two concurrent threads; all byte strings must be identical and as long as the header implies.",
+    "Every mapping of the scopes (all histories up to depth 4 (5), file-rule and name-table families, a wide family with >=6 keys per hash container, corpus) is serialised in 8 (24) separately started processes with owned hash seeds + 2 with OS seeds; in each process twice in a row, for every 64th input from two concurrent threads and at all 8 address residues, and for every 4th input after four writes that failed part-way on the same thread; all byte strings must be identical and as long as the header implies.",
     "Trusted: rustc/std; the getrandom shim. The 2^128 seed space is not enumerable: seeds are a finite owned set (the evidence reports how many distinct iteration orders they produced); exhaustive is the input dimension.", "DESIGN.md §4 C14")
 add("C15", "E5 sinkfault", "fault_enumeration", "deviation-bounded exhaustive exploration of sink behaviours (run, record calls, branch on every later call) around the real writer",
     "17 mappings (every padding site exercised / not) x every sink script with <=4 (5) deviations from 'accept everything' (short by 1/2/3/len-1 bytes, Ok(0), Interrupted, sticky hard error at any call) + uniform k-byte sinks k=1..16: success implies the accepted bytes are exactly the canonical file; a hard failure or Ok(0) implies an error; delivered bytes are always a prefix; short writes and interruptions alone never fail the write.",
